@@ -458,7 +458,10 @@ Qed.
 Lemma quad_core (a b c : C) : eps <= / 100 ->
   let X5 := (1 + eps) * (1 + eps) * (1 + eps) * (1 + eps) * (1 + eps) in
   let Xq := (1 + eps * (1 + eps)) * (1 + eps) * (1 + eps) in
-  exists qx rho : C,
+  exists (sh : C) (sg : R) (qx rho : C),
+    (sg = 1 \/ sg = Ropp 1) /\ qx = ((b + sh * RtoC sg) * RtoC (- / 2))%C /\
+    Cmod (sh * sh - qdisc a b c)%C <= (X5 - 1) * (Cmod b * Cmod b + 4 * (Cmod a * Cmod c)) /\
+    (1 - eps) * (Cmod b * Cmod b + Cmod sh * Cmod sh) <= 4 * (Cmod qx * Cmod qx) /\
     q_q a b c = (qx * rho)%C /\ near rho Xq /\
     Cmod (qx * qx + b * qx + a * c)%C
       <= (X5 - 1) / (1 - eps) * (Cmod qx * Cmod qx) + (X5 - 1) * (Cmod a * Cmod c).
@@ -540,9 +543,111 @@ Proof.
       apply (Rmult_le_reg_r (Cmod t)); [exact Pt'|]. unfold Rdiv. rewrite Rmult_assoc, Rinv_l by lra.
       pose proof (Cmod_ge_0 d6). nra. }
   destruct HA as (ra & Nra & Era).
-  exists qx, (ra * (C1 + d7) * (C1 + d8))%C. split; [|split; [|exact HE]].
+  exists sh, sg, qx, (ra * (C1 + d7) * (C1 + d8))%C.
+  split; [exact Hsg|]. split; [reflexivity|]. split; [exact HD|].
+  split; [rewrite <- Mm; rewrite Mq in NC; lra|].
+  split; [|split; [|exact HE]].
   - unfold q_q. fold sh. fold sg. rewrite E8, E7, E6, Era. unfold qx. ring.
   - unfold Xq. repeat apply near_mul; try assumption; apply near_1pd; assumption.
+Qed.
+
+
+(* 3.2  the residual of the two returned values *)
+Lemma root0_bound (a b c qx rho d : C) : a <> C0 -> eps <= / 100 ->
+  let X5 := (1 + eps) * (1 + eps) * (1 + eps) * (1 + eps) * (1 + eps) in
+  let Xq := (1 + eps * (1 + eps)) * (1 + eps) * (1 + eps) in
+  near rho Xq ->
+  Cmod (qx * qx + b * qx + a * c)%C <= (X5 - 1) / (1 - eps) * (Cmod qx * Cmod qx) + (X5 - 1) * (Cmod a * Cmod c) ->
+  Cmod d <= eps ->
+  Cmod (qval a b c (qx * rho / a * (C1 + d))%C) <= 16 * eps * qsize a b c (qx * rho / a * (C1 + d))%C.
+Proof.
+  intros Ha He X5 Xq Hr HE Hd.
+  destruct (numeric_bounds eps (conj eps_nonneg He)) as (N1 & N2 & N3 & N4 & N5). fold X5 Xq in N1, N2, N3, N4, N5.
+  assert (Hr0 : near (rho * (C1 + d))%C (1 + 4.19 * eps)).
+  { eapply near_mono; [apply near_mul; [exact Hr|apply near_1pd; exact Hd]|]. lra. }
+  replace (qx * rho / a * (C1 + d))%C with (qx / a * (rho * (C1 + d)))%C by (field; exact Ha).
+  set (X := 1 + 4.19 * eps) in *.
+  assert (X5pos : 0 <= X5 - 1).
+  { pose proof (near_ge1 _ _ Hr). unfold X5. assert (1 <= (1 + eps) * (1 + eps)) by nra.
+    assert (1 <= (1 + eps) * (1 + eps) * (1 + eps)) by nra.
+    assert (1 <= (1 + eps) * (1 + eps) * (1 + eps) * (1 + eps)) by nra. nra. }
+  assert (H1pos : 0 <= (X5 - 1) / (1 - eps)).
+  { unfold Rdiv. apply Rmult_le_pos; [exact X5pos|]. apply Rlt_le, Rinv_0_lt_compat. lra. }
+  destruct (numeric_final eps ((X5 - 1) / (1 - eps)) (X5 - 1) X (conj eps_nonneg He)) as (F0 & F1 & F2 & F3);
+    [lra | lra | unfold X; lra |].
+  destruct (res_root0 a b c qx _ X Ha Hr0 F0) as [R1 R2]. cbv zeta in R1, R2.
+  set (x := (qx / a * (rho * (C1 + d)))%C) in *.
+  set (Q := Cmod qx * Cmod qx) in *. set (B := Cmod b * Cmod qx) in *. set (A := Cmod a * Cmod c) in *.
+  assert (PQ : 0 <= Q) by (unfold Q; apply Rle_0_sqr).
+  assert (PB : 0 <= B) by (unfold B; apply Rmult_le_pos; apply Cmod_ge_0).
+  assert (PA : 0 <= A) by (unfold A; apply Rmult_le_pos; apply Cmod_ge_0).
+  pose proof (combine Q B A _ _ _ X (16 * eps) PQ PB PA HE F1 F2 F3) as K.
+  assert (Pa : 0 < Cmod a) by (now apply Cmod_gt_0).
+  apply (Rmult_le_reg_l (Cmod a)); [exact Pa|].
+  assert (K2 : 16 * eps * (Q * ((2 - X) * (2 - X)) + B * (2 - X) + A) <= 16 * eps * (Cmod a * qsize a b c x)).
+  { apply Rmult_le_compat_l; [lra|exact R2]. }
+  lra.
+Qed.
+
+Lemma root1_bound (a b c qx rho d : C) : qx <> C0 -> eps <= / 100 ->
+  let X5 := (1 + eps) * (1 + eps) * (1 + eps) * (1 + eps) * (1 + eps) in
+  let Xq := (1 + eps * (1 + eps)) * (1 + eps) * (1 + eps) in
+  near rho Xq ->
+  Cmod (qx * qx + b * qx + a * c)%C <= (X5 - 1) / (1 - eps) * (Cmod qx * Cmod qx) + (X5 - 1) * (Cmod a * Cmod c) ->
+  Cmod d <= eps ->
+  Cmod (qval a b c (c / (qx * rho) * (C1 + d))%C) <= 16 * eps * qsize a b c (c / (qx * rho) * (C1 + d))%C.
+Proof.
+  intros Hq He X5 Xq Hr HE Hd.
+  destruct (numeric_bounds eps (conj eps_nonneg He)) as (N1 & N2 & N3 & N4 & N5). fold X5 Xq in N1, N2, N3, N4, N5.
+  assert (Xq2 : Xq < 2) by lra.
+  pose proof (near_nz _ _ Hr Xq2) as Hrho.
+  assert (Hr1 : near ((C1 + d) * / rho)%C (1 + 4.19 * eps)).
+  { eapply near_mono; [apply near_mul; [apply near_1pd; exact Hd|apply near_inv; [exact Hr|exact Xq2]]|]. lra. }
+  replace (c / (qx * rho) * (C1 + d))%C with (c / qx * ((C1 + d) * / rho))%C by (field; split; assumption).
+  set (X := 1 + 4.19 * eps) in *.
+  assert (X5pos : 0 <= X5 - 1).
+  { pose proof (near_ge1 _ _ Hr). unfold X5. assert (1 <= (1 + eps) * (1 + eps)) by nra.
+    assert (1 <= (1 + eps) * (1 + eps) * (1 + eps)) by nra.
+    assert (1 <= (1 + eps) * (1 + eps) * (1 + eps) * (1 + eps)) by nra. nra. }
+  assert (H1pos : 0 <= (X5 - 1) / (1 - eps)).
+  { unfold Rdiv. apply Rmult_le_pos; [exact X5pos|]. apply Rlt_le, Rinv_0_lt_compat. lra. }
+  destruct (numeric_final eps (X5 - 1) ((X5 - 1) / (1 - eps)) X (conj eps_nonneg He)) as (F0 & F1 & F2 & F3);
+    [lra | lra | unfold X; lra |].
+  destruct (res_root1 a b c qx _ X Hq Hr1 F0) as [R1 R2]. cbv zeta in R1, R2.
+  set (x := (c / qx * ((C1 + d) * / rho))%C) in *.
+  set (Q := Cmod qx * Cmod qx) in *. set (B := Cmod b * Cmod qx) in *. set (A := Cmod a * Cmod c) in *.
+  assert (PQ : 0 <= Q) by (unfold Q; apply Rle_0_sqr).
+  assert (PB : 0 <= B) by (unfold B; apply Rmult_le_pos; apply Cmod_ge_0).
+  assert (PA : 0 <= A) by (unfold A; apply Rmult_le_pos; apply Cmod_ge_0).
+  assert (HE' : Cmod (qx * qx + b * qx + a * c)%C <= (X5 - 1) * A + (X5 - 1) / (1 - eps) * Q) by lra.
+  pose proof (combine A B Q _ _ _ X (16 * eps) PA PB PQ HE' F1 F2 F3) as K.
+  assert (Pq : 0 < Cmod qx) by (now apply Cmod_gt_0).
+  assert (PQ' : 0 < Q) by (unfold Q; apply Rmult_lt_0_compat; exact Pq).
+  apply (Rmult_le_reg_l Q); [exact PQ'|].
+  pose proof (Cmod_ge_0 c) as Pc.
+  assert (K1 : Cmod c * (Cmod (qx * qx + b * qx + a * c)%C + A * (X * X - 1) + B * (X - 1))
+               <= Cmod c * (16 * eps * (A * ((2 - X) * (2 - X)) + B * (2 - X) + Q))).
+  { apply Rmult_le_compat_l; assumption. }
+  assert (K2 : 16 * eps * (Cmod c * (A * ((2 - X) * (2 - X)) + B * (2 - X) + Q)) <= 16 * eps * (Q * qsize a b c x)).
+  { apply Rmult_le_compat_l; [lra|exact R2]. }
+  lra.
+Qed.
+
+(* 3.3  the model *)
+Theorem quadratic_residual_lemma (a b c : C) : a <> C0 -> eps <= / 100 ->
+  exists r0 r1 : C, quadratic_solve RoundRA a b c = Ok [r0; r1] /\
+    forall x : C, x = r0 \/ x = r1 -> Cmod (qval a b c x) <= 16 * eps * qsize a b c x.
+Proof.
+  intros Ha He. rewrite quadratic_solve_round_eq.
+  destruct (quad_core a b c He) as (sh & sg & qx & rho & _ & _ & _ & _ & Eq & Hr & HE).
+  destruct (rel_mult eps _ _ eps_nonneg (fdiv_ok (q_q a b c) a Ha)) as (d9 & D9 & E9).
+  assert (B0 : Cmod (qval a b c (fdiv (q_q a b c) a)) <= 16 * eps * qsize a b c (fdiv (q_q a b c) a)).
+  { rewrite E9, Eq. apply root0_bound; assumption. }
+  do 2 eexists. split; [reflexivity|]. intros x [-> | ->]; [exact B0|].
+  destruct (Ceq_dec (q_q a b c) C0) as [Z|NZ]; [exact B0|].
+  destruct (rel_mult eps _ _ eps_nonneg (fdiv_ok c (q_q a b c) NZ)) as (d10 & D10 & E10).
+  rewrite E10, Eq. apply root1_bound; try assumption.
+  intros Zq. apply NZ. rewrite Eq, Zq. ring.
 Qed.
 
 End RoundArith.
